@@ -57,7 +57,7 @@ pub fn spec(id: &str) -> Option<CheckSpec> {
             id: "C15",
             engine: "sysim",
             level: "exploration",
-            owns: &["confinement", "readonly-mutates", "key-opaque", "lookup", "read-exact", "listing"],
+            owns: &["confinement", "readonly-mutates", "key-opaque", "lookup", "read-exact", "listing", "linkto"],
             runs: (1500, 40000),
             rule: "a run = a seeded program over the whole operation table with hostile/confusable keys, executed by one traced client whose TMPDIR, HOME and cwd point at sentinel directories; every mutating system call (open with write/create flags, mkdir, rename, unlink, link, symlink, truncate, fallocate, write-family, writable shared mmap, chmod/chown/utimens/xattr, copy_file_range, FICLONE) must target the cache directory or the declared destination; read-only API calls issue no mutating call; index paths touched for key k are exactly index-v5/sha1(k); sentinel trees are byte-identical afterwards. Half the runs inject one errno to reach error paths. Non-trivial = >= 1 mutating system call observed; distinct by trace hash. The cache path is spelled plainly, with a trailing slash, through ./ or ../, or has a directory name that is not valid UTF-8 (traces are byte-exact)",
             assumptions: A_SYS,
